@@ -219,6 +219,9 @@ def _bcd_epoch(X, y, w, Xw, lipschitz, datafit, penalty, ws):
         old_w_g = w[grp_g_indices].copy()
 
         lipschitz_g = lipschitz[g]
+        if lipschitz_g == 0.:  # X[:, grp_g_indices] == 0: w_g only enters the penalty
+            w[grp_g_indices] = penalty.prox_1group(old_w_g, 1000., g)
+            continue
         grad_g = datafit.gradient_g(X, y, w, Xw, g)
 
         w[grp_g_indices] = penalty.prox_1group(
@@ -240,6 +243,9 @@ def _bcd_epoch_sparse(
         old_w_g = w[grp_g_indices].copy()
 
         lipschitz_g = lipschitz[g]
+        if lipschitz_g == 0.:  # X[:, grp_g_indices] == 0: w_g only enters the penalty
+            w[grp_g_indices] = penalty.prox_1group(old_w_g, 1000., g)
+            continue
         grad_g = datafit.gradient_g_sparse(X_data, X_indptr, X_indices, y, w, Xw, g)
 
         w[grp_g_indices] = penalty.prox_1group(
